@@ -220,6 +220,17 @@ func (theHandler) ServeHTTP(w http.ResponseWriter, r *http.Request) {
 			atomic.StoreInt32(&h.busy, hWrite)
 			r.Body.Close()
 			h.done(Ev{Ev: "h", S: int(sid), Op: "closebody", Res: "ok"}, 0)
+		case "wret":
+			// write without flushing and return: the response's last DATA frame carries END_STREAM
+			atomic.StoreInt32(&h.busy, hReturned)
+			data := make([]byte, c.n)
+			for i := range data {
+				data[i] = pat(h.woff + i)
+			}
+			n, _ := w.Write(data)
+			h.woff += n
+			cr.hev(Ev{Ev: "h", S: int(sid), Op: "wret", N: n, Res: "ok"})
+			return
 		case "ret":
 			atomic.StoreInt32(&h.busy, hReturned)
 			cr.hev(Ev{Ev: "h", S: int(sid), Op: "ret", Res: "ok"})
@@ -244,16 +255,17 @@ func runsOf(b []byte) []Run {
 // ---------------------------------------------------------------- one case
 
 type caseRun struct {
-	c      *Case
-	name   string
-	cl, sv *endpoint
-	fr     *http2.Framer
-	enc    *hpack.Encoder
-	encBuf bytes.Buffer
-	dec    *hpack.Decoder
-	vc     *bfe_http2.VerifH2connConn
-	vcCh   chan *bfe_http2.VerifH2connConn
-	served chan struct{} // closed when ServeConn has returned (after notePanic ran)
+	c       *Case
+	name    string
+	cl, sv  *endpoint
+	fr      *http2.Framer
+	enc     *hpack.Encoder
+	encBuf  bytes.Buffer
+	dec     *hpack.Decoder
+	vc      *bfe_http2.VerifH2connConn
+	vcCh    chan *bfe_http2.VerifH2connConn
+	served  chan struct{} // closed when ServeConn has returned (after notePanic ran)
+	closeCh chan bool     // BaseConfig.CloseNotifyCh: graceful shutdown notification
 
 	hmu      sync.Mutex
 	handlers map[uint32]*hstate
@@ -361,7 +373,8 @@ var settleTimeout = 30 * time.Second
 func (cr *caseRun) start() bool {
 	cfg := cr.c.Cfg
 	srv := &bfe_http2.Server{MaxConcurrentStreams: cfg.MaxS, MaxUploadBufferPerStream: cfg.SW}
-	base := &http.Server{ReadTimeout: time.Hour, GracefulShutdownTimeout: time.Hour}
+	cr.closeCh = make(chan bool, 1)
+	base := &http.Server{ReadTimeout: time.Hour, GracefulShutdownTimeout: time.Hour, CloseNotifyCh: cr.closeCh}
 	// preface + SETTINGS are in the buffer before the server starts (firstSettingsTimeout)
 	cr.cl.Write([]byte(http2.ClientPreface))
 	var ss []http2.Setting
@@ -424,7 +437,7 @@ func (cr *caseRun) drainFrames() {
 	}
 	var hdr [9]byte
 	for {
-		n, _, _, closed := cr.cl.r.state()
+		n, _, wwait, closed := cr.cl.r.state()
 		if n < 9 {
 			if closed {
 				// the server closed the connection; a truncated frame at the very end
@@ -440,8 +453,13 @@ func (cr *caseRun) drainFrames() {
 			if closed {
 				cr.cl.r.discard()
 				cr.sawEOF = true
+				return
 			}
-			return
+			if wwait == 0 {
+				return
+			}
+			// bounded transport: the server's writer is blocked in the middle of this frame;
+			// reading it (blocking) is what lets the writer go on
 		}
 		f, err := cr.fr.ReadFrame()
 		if err != nil {
@@ -795,6 +813,8 @@ func (cr *caseRun) step(st Step) {
 		}
 	case "race":
 		cr.race(st)
+	case "wrace":
+		cr.wrace(st)
 	case "h":
 		cr.hmu.Lock()
 		h := cr.handlers[st.S]
@@ -862,6 +882,44 @@ func (cr *caseRun) race(st Step) {
 		time.Sleep(200 * time.Microsecond) // let the reader reach its send on readFrameCh
 	}
 	release()
+}
+
+// wrace: the client's RST_STREAM is processed while the server's last frame of that stream
+// (DATA with END_STREAM) is in flight in the writer goroutine.  The client stops reading (the
+// transport of such cases is bounded), the handler writes n octets unflushed and returns, the
+// final DATA frame blocks in the writer; the RST_STREAM is sent and processed; the client reads
+// again and the write completes.
+func (cr *caseRun) wrace(st Step) {
+	cr.hmu.Lock()
+	h := cr.handlers[st.S]
+	cr.hmu.Unlock()
+	if h == nil || atomic.LoadInt32(&h.busy) != hIdle {
+		cr.mobs = append(cr.mobs, MObs{M: true, Cid: cr.c.ID, Step: -cr.stepNo})
+		return
+	}
+	cr.stall = true
+	cr.emit(Ev{Ev: "hc", S: int(st.S), Op: "wret", N: st.N})
+	atomic.StoreInt32(&h.busy, hReturned)
+	h.cmds <- hcmd{"wret", st.N}
+	deadline := time.Now().Add(settleTimeout)
+	for {
+		if _, _, wwait, _ := cr.cl.r.state(); wwait > 0 || time.Now().After(deadline) || cr.serverDone() {
+			break
+		}
+		time.Sleep(20 * time.Microsecond)
+	}
+	cr.emit(Ev{Ev: "c", K: "RST", S: int(st.S), Code: int(st.Code), Op: "inflight", IWS: -1, MFS: -1, CL: -1})
+	if err := cr.fr.WriteRSTStream(st.S, http2.ErrCode(st.Code)); err != nil {
+		cr.emit(Ev{Ev: "c", K: "LOST", Res: err.Error()})
+	} else {
+		for {
+			if n, rwait, _, _ := cr.sv.r.state(); (n == 0 && rwait > 0) || time.Now().After(deadline) || cr.serverDone() {
+				break
+			}
+			time.Sleep(20 * time.Microsecond)
+		}
+	}
+	cr.stall = false
 }
 
 func runCase(c *Case) (evs []Ev, mobs []MObs, panicText string) {
